@@ -30,13 +30,15 @@ pub struct RawCfg {
     pub odd_views: bool,
     /// leave (now and then) one instantiated cell out of `lib.cells`: it is then part of the library only through instance pointers
     pub unlisted_cells: bool,
+    /// a layout view may carry a name of its own, different from its cell's (without the other `odd_views`)
+    pub view_names: bool,
 }
 impl RawCfg {
     pub fn gds() -> Self {
-        RawCfg { units: vec![Units::Micro, Units::Nano, Units::Angstrom, Units::Pico], abstracts: false, annotations: false, nets: true, general_polygons: true, paths: true, max_cells: 6, max_elems: 8, right_angles_only: true, inst_names: false, hostile_layers: false, shared_layer_numbers: false, odd_views: false, unlisted_cells: false }
+        RawCfg { units: vec![Units::Micro, Units::Nano, Units::Angstrom, Units::Pico], abstracts: false, annotations: false, nets: true, general_polygons: true, paths: true, max_cells: 6, max_elems: 8, right_angles_only: true, inst_names: false, hostile_layers: false, shared_layer_numbers: false, odd_views: false, unlisted_cells: false, view_names: false }
     }
     pub fn proto() -> Self {
-        RawCfg { units: vec![Units::Micro, Units::Nano, Units::Angstrom], abstracts: true, annotations: true, nets: true, general_polygons: true, paths: true, max_cells: 6, max_elems: 8, right_angles_only: true, inst_names: true, hostile_layers: false, shared_layer_numbers: false, odd_views: true, unlisted_cells: false }
+        RawCfg { units: vec![Units::Micro, Units::Nano, Units::Angstrom], abstracts: true, annotations: true, nets: true, general_polygons: true, paths: true, max_cells: 6, max_elems: 8, right_angles_only: true, inst_names: true, hostile_layers: false, shared_layer_numbers: false, odd_views: true, unlisted_cells: false, view_names: false }
     }
 }
 
@@ -308,7 +310,7 @@ pub fn rand_raw_lib(rng: &mut Rng, cfg: &RawCfg) -> GenRaw {
         let want_layout = !cfg.abstracts || rng.chance(4, 5);
         let mut d = Vec::new();
         if want_layout {
-            let lay_name = if cfg.odd_views && rng.chance(1, 4) { format!("{}_impl", name) } else { name.clone() };
+            let lay_name = if (cfg.odd_views || cfg.view_names) && rng.chance(1, 4) { format!("{}_impl", name) } else { name.clone() };
             let mut lay = Layout { name: lay_name, ..Default::default() };
             let ne = rng.usize(cfg.max_elems + 1);
             for k in 0..ne {
